@@ -14,6 +14,7 @@ from .lang import (Typer, is_arr, arr, ARITH, COMPARE, EQUALITY, TypeErr,
 
 WIN, ERROR, DIVERGE, DEFEAT = 'WIN', 'ERROR', 'DIVERGE', 'DEFEAT'
 UNSPECIFIED, UNDEFINED, BUDGET = 'UNSPECIFIED', 'UNDEFINED', 'BUDGET'
+FELLOFF = 'FELLOFF'
 
 
 class _Halt(Exception):
@@ -216,6 +217,8 @@ class Interp:
             try:
                 self.exec_block(f[4], frame, types, new_scope=False)
                 ret = None
+                if f[1] != 'empty':
+                    raise _Abort(FELLOFF, f'control reached the end of {f[2]} without a return value')
             except _Return as r:
                 ret = r.value
             self.protected_return(f)
